@@ -152,7 +152,103 @@ def t_early_return(fn):
     return m
 
 
-TRANSFORMS = {"rename-locals": t_rename_locals, "negate-if": t_negate_if, "temp-test": t_temp_test, "early-return": t_early_return}
+def t_split_and(fn):
+    """`if a and b: X` (no else) -> `if a:` / `if b: X`"""
+    m = clone(fn)
+    changed = [0]
+
+    class R(ast.NodeTransformer):
+        def visit_If(self, node):
+            self.generic_visit(node)
+            if not node.orelse and isinstance(node.test, ast.BoolOp) and isinstance(node.test.op, ast.And) and len(node.test.values) >= 2:
+                first, rest = node.test.values[0], node.test.values[1:]
+                inner_test = rest[0] if len(rest) == 1 else ast.BoolOp(op=ast.And(), values=rest)
+                inner = ast.copy_location(ast.If(test=inner_test, body=node.body, orelse=[]), node)
+                node.test = first
+                node.body = [inner]
+                changed[0] += 1
+            return node
+
+        def _skip(self, node):
+            return node
+
+        visit_FunctionDef = _skip
+        visit_AsyncFunctionDef = _skip
+
+    m.body = [R().visit(s) for s in m.body]
+    ast.fix_missing_locations(m)
+    return m if changed[0] else None
+
+
+def _extractable(block):
+    for s in block:
+        for n in ast.walk(s):
+            if isinstance(n, (ast.Return, ast.Break, ast.Continue, ast.Yield, ast.YieldFrom, ast.FunctionDef, ast.AsyncFunctionDef, ast.Lambda, ast.ClassDef, ast.Global, ast.Nonlocal, ast.NamedExpr)):
+                return False
+            if isinstance(n, (ast.ListComp, ast.SetComp, ast.DictComp, ast.GeneratorExp)):
+                return False
+    return len(block) >= 1
+
+
+def _make_extract(k):
+    def t(fn):
+        """the k-th extractable block (body of an if / for / with / try) becomes a nested closure that is called in its place"""
+        m = clone(fn)
+        params = {a.arg for a in m.args.args + m.args.kwonlyargs + m.args.posonlyargs}
+        cands = []
+        for n in ast.walk(m):
+            if n is m or isinstance(n, (ast.FunctionDef, ast.AsyncFunctionDef, ast.Lambda, ast.ClassDef)):
+                continue
+            for field in ("body", "orelse"):
+                blk = getattr(n, field, None)
+                if isinstance(blk, list) and blk and isinstance(blk[0], ast.stmt) and isinstance(n, (ast.If, ast.For, ast.AsyncFor, ast.With, ast.AsyncWith, ast.Try, ast.While)) and _extractable(blk):
+                    # not inside a nested function
+                    cands.append((n, field))
+        # skip blocks nested in nested defs
+        inner_ids = {id(x) for d in ast.walk(m) if d is not m and isinstance(d, (ast.FunctionDef, ast.AsyncFunctionDef, ast.Lambda)) for x in ast.walk(d)}
+        cands = [(n, f) for n, f in cands if id(n) not in inner_ids]
+        if k >= len(cands):
+            return None
+        n, field = cands[k]
+        blk = getattr(n, field)
+        stores = sorted({x.id for s in blk for x in ast.walk(s) if isinstance(x, ast.Name) and isinstance(x.ctx, (ast.Store, ast.Del))} | {h.name for s in blk for h in ast.walk(s) if isinstance(h, ast.ExceptHandler) and h.name})
+        if any(nm in params for nm in stores):
+            # nonlocal of a parameter is fine in Python, keep it simple anyway
+            pass
+        is_async = any(isinstance(x, (ast.Await, ast.AsyncFor, ast.AsyncWith)) for s in blk for x in ast.walk(s))
+        name = f"_blk{k}"
+        body = ([ast.Nonlocal(names=stores)] if stores else []) + blk
+        args = ast.arguments(posonlyargs=[], args=[], vararg=None, kwonlyargs=[], kw_defaults=[], kwarg=None, defaults=[])
+        d = (ast.AsyncFunctionDef if is_async else ast.FunctionDef)(name=name, args=args, body=body, decorator_list=[], returns=None, type_comment=None)
+        if hasattr(d, "type_params"):
+            d.type_params = []
+        call = ast.Call(func=ast.Name(id=name, ctx=ast.Load()), args=[], keywords=[])
+        stmt = ast.Expr(value=ast.Await(value=call) if is_async else call)
+        if is_async and not isinstance(m, ast.AsyncFunctionDef):
+            return None
+        setattr(n, field, [stmt])
+        # names that are nonlocal must be bound in the enclosing function before the def: pre-bind unbound ones to None at the top
+        bound_before = set(params)
+        pre = [ast.Assign(targets=[ast.Name(id=nm, ctx=ast.Store())], value=ast.Constant(value=None)) for nm in stores if nm not in params]
+        doc = []
+        rest = m.body
+        if rest and isinstance(rest[0], ast.Expr) and isinstance(rest[0].value, ast.Constant) and isinstance(rest[0].value.value, str):
+            doc, rest = [rest[0]], rest[1:]
+        # pre-binding to None would change behaviour for names read before assignment (UnboundLocalError -> None): only do it for names that
+        # are *not* otherwise bound earlier; to stay strictly behaviour-preserving we instead require every nonlocal name to be bound somewhere
+        # else in the function as well (then `nonlocal` is legal without the pre-binding)
+        outer_stores = {x.id for s in rest for x in ast.walk(s) if isinstance(x, ast.Name) and isinstance(x.ctx, ast.Store)} | {h.name for s in rest for h in ast.walk(s) if isinstance(h, ast.ExceptHandler) and h.name}
+        if any(nm not in outer_stores and nm not in params for nm in stores):
+            return None
+        m.body = doc + [d] + rest
+        ast.fix_missing_locations(m)
+        return m
+    return t
+
+
+TRANSFORMS = {"rename-locals": t_rename_locals, "negate-if": t_negate_if, "temp-test": t_temp_test, "early-return": t_early_return, "split-and": t_split_and}
+for _k in range(6):
+    TRANSFORMS[f"extract-closure-{_k}"] = _make_extract(_k)
 _PROGRAM = None
 
 
@@ -199,6 +295,55 @@ def _job(args):
         return (qual, tname, "checker-crash", f"{type(e).__name__}: {e}"[:120])
 
 
+def _rename_job(args):
+    """rename an anchor function (definition and every reference in the package) - a full re-read, because renames are undone by the
+    program-level normaliser only"""
+    prop, qual, base_keys = args
+    global _PROGRAM
+    if _PROGRAM is None:
+        _PROGRAM = Program()
+    fn = _PROGRAM.func_opt(qual)
+    if fn is None or fn.name.startswith("__"):
+        return (qual, "rename-function", "n/a", "")
+    old, new = fn.name, fn.name + "_renamed"
+    overrides = {}
+    for m in _PROGRAM.modules.values():
+        if m.rel.startswith("<dep>") or old not in m.src:
+            continue
+        tree = ast.parse(m.src)
+        hit = False
+        for n in ast.walk(tree):
+            if isinstance(n, (ast.FunctionDef, ast.AsyncFunctionDef)) and n.name == old:
+                n.name = new
+                hit = True
+            elif isinstance(n, ast.Attribute) and n.attr == old:
+                n.attr = new
+                hit = True
+            elif isinstance(n, ast.Name) and n.id == old:
+                n.id = new
+                hit = True
+            elif isinstance(n, ast.alias) and n.name == old:
+                n.name = new
+                hit = True
+        if hit:
+            overrides[m.rel] = ast.unparse(tree) + "\n"
+    if not overrides:
+        return (qual, "rename-function", "n/a", "")
+    try:
+        program = Program(overrides=overrides)
+        ctx = RunCtx(prop, "quick", program)
+        importlib.import_module(f"sa.props.{prop.lower()}").run(program, ctx)
+        ctx.check_floors()
+        newf = sorted({f.rule for f in ctx.findings if f.key not in base_keys})
+        if newf:
+            return (qual, "rename-function", "false-alarm", ",".join(newf))
+        return (qual, "rename-function", "silent", "")
+    except AnalysisError as e:
+        return (qual, "rename-function", "false-alarm", f"analysis error: {str(e)[:100]}")
+    except Exception as e:
+        return (qual, "rename-function", "checker-crash", f"{type(e).__name__}: {e}"[:120])
+
+
 def run_for(prop: str, program: Program, workers: int = 16) -> dict:
     mod = importlib.import_module(f"sa.props.{prop.lower()}")
     anchors = [q for q in getattr(mod, "ANCHORS", []) if program.func_opt(q) is not None and not program.func_opt(q)._module.rel.startswith("<dep>")]
@@ -210,13 +355,14 @@ def run_for(prop: str, program: Program, workers: int = 16) -> dict:
         return {"summary": "no anchors"}
     with ProcessPoolExecutor(max_workers=min(workers, len(jobs))) as ex:
         results = list(ex.map(_job, jobs))
+        results += list(ex.map(_rename_job, [(prop, q, base_keys) for q in anchors]))
     tally: dict = {}
     for _, _, st, _ in results:
         tally[st] = tally.get(st, 0) + 1
     return {
         "summary": ",".join(f"{k}={v}" for k, v in sorted(tally.items())),
         "note": "behaviour-preserving transformations by construction (consistent renaming of locals, negated if/else, named temporaries for tests, "
-                "early return) of each anchor function; a new finding or an analysis error on a variant is a false alarm of the check; 'lost-known' = a "
+                "early return, `a and b` split into nested ifs, a block extracted into a nested closure, the function itself renamed package-wide) of each anchor function; a new finding or an analysis error on a variant is a false alarm of the check; 'lost-known' = a "
                 "known finding's key changed (the defect would be reported as new)",
         "results": [{"function": q, "transformation": t, "status": st, "detail": d} for q, t, st, d in results if st not in ("silent", "n/a")],
         "variants": len([1 for r in results if r[2] not in ("n/a", "skipped")]),
